@@ -107,18 +107,16 @@ vp_write_all(&mut @@RECV, @@ARGS)
         ensures res is Ok ==> true, // id: close_writes_terminator (stated on write_request, `self` is consumed) [C07]
 //@@ end
 //@@ fn src/request/body.rs impl<W:~Write>~Write~for~ChunkedWriter<W> write props=C07,C05
-//@@ rw R1
-write!(self.0, "{:x}\r\n", buf.len())
-//@@ =>
-vp_write_hex_crlf(&mut self.0, buf.len())
+//@@ fmt
 //@@ method R1
 write_all
 //@@ =>
 vp_write_all(&mut @@RECV, @@ARGS)
-//@@ rw R1
-write!(self.0, "\r\n")
-//@@ =>
-vp_write_crlf(&mut self.0)
+//@@ splice before
+if buf.is_empty() {
+//@@ with
+        broadcast use group_fmt;
+        proof { lemma_crlf_lit(); }
 //@@ contract
         ensures
             res matches Ok(n) ==> n == buf@.len(), // id: whole_buffer_accepted [C07]
@@ -141,18 +139,16 @@ vp_write_all(&mut *@@RECV, @@ARGS)
         ensures res is Ok ==> mut_ref_future(self.0).sent() == mut_ref_current(self.0).sent() + last_chunk_wire(), // id: close_writes_only_the_terminator [C07]
 //@@ end
 //@@ fn src/request/body.rs impl<W:~Write>~Write~for~ChunkedWriter<W> write rename=write_ref props=C07,C05
-//@@ rw R1
-write!(self.0, "{:x}\r\n", buf.len())
-//@@ =>
-vp_write_hex_crlf(&mut *self.0, buf.len())
+//@@ fmt ref=self.0
 //@@ method R1
 write_all
 //@@ =>
 vp_write_all(&mut *@@RECV, @@ARGS)
-//@@ rw R1
-write!(self.0, "\r\n")
-//@@ =>
-vp_write_crlf(&mut *self.0)
+//@@ splice before
+if buf.is_empty() {
+//@@ with
+        broadcast use group_fmt;
+        proof { lemma_crlf_lit(); }
 //@@ contract
         ensures
             mut_ref_future(final(self).0) == mut_ref_future(old(self).0),
